@@ -169,10 +169,13 @@ def brentsroot(f, bounds, tol=None, verbose=False, return_interval=False):
     if verbose:
         with numpy.printoptions(precision=17, linewidth=200):
             print(f"[{numiter}] a={D.ar_numpy.to_numpy(a)}, b={D.ar_numpy.to_numpy(b)}, f(a)={D.ar_numpy.to_numpy(fa)}, f(b)={D.ar_numpy.to_numpy(fb)}")
+    # the root is certified when the residual is small or when a sign change is bracketed to within the tolerance on x
+    # (the residual of a steep or discontinuous function need not be small at any representable point)
+    success = (D.ar_numpy.abs(f(b)) <= tol) | ((D.ar_numpy.abs(b - a) < tol) & (fa * fb <= 0))
     if return_interval:
-        return b, D.ar_numpy.abs(f(b)) <= tol, (a, b)
+        return b, success, (a, b)
     else:
-        return b, D.ar_numpy.abs(f(b)) <= tol
+        return b, success
 
 
 def brentsrootvec(f, bounds, tol=None, verbose=False, return_interval=False, accepts_mask=False):
@@ -309,7 +312,7 @@ def brentsrootvec(f, bounds, tol=None, verbose=False, return_interval=False, acc
         conv = D.ar_numpy.logical_not(D.ar_numpy.logical_or(D.ar_numpy.logical_or(fb == 0, fs == 0), D.ar_numpy.abs(b - a) < tol))
         conv = conv & (numiter <= 64)
         not_conv = D.ar_numpy.logical_not(conv)
-        true_conv = (D.ar_numpy.abs(fb) <= tol)
+        true_conv = (D.ar_numpy.abs(fb) <= tol) | ((D.ar_numpy.abs(b - a) < tol) & (fa * fb <= 0))
 
     if verbose:
         with numpy.printoptions(precision=17, linewidth=200):
